@@ -190,14 +190,16 @@ func (m *Manager) ClearPeer(peerID core.PeerID) {
 	delete(m.requestsByPeer, peerID)
 
 	for i, rs := range m.requests {
-		for j, r := range rs {
-			if r.PeerID == peerID {
-				// Eject request.
-				rs[j] = rs[len(rs)-1]
-				m.requests[i] = rs[:len(rs)-1]
-				break
+		// Eject every request of the peer, not only the first one: a request which
+		// expired or was marked unsent / invalid stays in the list when the same
+		// piece is reserved for the same peer again.
+		kept := rs[:0]
+		for _, r := range rs {
+			if r.PeerID != peerID {
+				kept = append(kept, r)
 			}
 		}
+		m.requests[i] = kept
 	}
 }
 
